@@ -37,6 +37,14 @@ class ClassRef:
         self.name = name
 
 
+class CacheRef:
+    """an opaque memo table attribute (sidecar `caches`): membership is non-deterministic, a hit returns what the sidecar's
+    cache invariant says the table holds for that key"""
+
+    def __init__(self, base, attr):
+        self.base, self.attr = base, attr
+
+
 class ExcVal:
     def __init__(self, name):
         self.name = name
@@ -204,6 +212,8 @@ class Exec:
                     raise Outside("// or % by a non-positive literal")
             else:
                 self.emit(f"L{line}.divisor_positive", st, r > 0, line=line)
+            if isinstance(op, ast.Mod) and isinstance(r, int) and r > 2:
+                return z3.If(z3.And(l >= 0, l < r), l, l % r)  # same value; spares the solver a div/mod elimination
             return l / r if isinstance(op, ast.FloorDiv) else l % r  # z3 div/mod = floor semantics for positive divisors
         if isinstance(op, ast.BitXor):
             return T.xor(l, r)
@@ -300,6 +310,11 @@ class Exec:
         raise Outside(f"BV mode operator {type(op).__name__}")
 
     def compare(self, op, l, r, st, line=0):
+        if isinstance(r, CacheRef) and isinstance(op, (ast.In, ast.NotIn)):
+            if self.mode == "concrete":
+                return isinstance(op, ast.NotIn)  # a miss; hits are observationally identical under the cache invariant
+            hit = self.fresh("cache_hit", sort="bool")
+            return hit if isinstance(op, ast.In) else z3.Not(hit)
         if isinstance(l, Rec) or isinstance(r, Rec):
             if isinstance(op, (ast.Eq, ast.NotEq)):
                 recv, other = (l, r) if isinstance(l, Rec) else (r, l)
@@ -407,6 +422,8 @@ class Exec:
         if isinstance(e, ast.Subscript):
             base = self.ev(e.value, st)
             idx = self.ev(e.slice, st)
+            if isinstance(base, CacheRef):
+                return self.C.caches[base.attr](self, base.base, idx, st)
             if isinstance(base, (list, tuple)) and isinstance(idx, int):
                 try:
                     return base[idx]
@@ -430,6 +447,9 @@ class Exec:
         if isinstance(base, Rec):
             if attr in base.f:
                 return base.f[attr]
+            if self.C is not None and attr in self.C.caches:
+                self.note(f"memo table .{attr}: transparent cache (hit is non-deterministic; a hit returns what the constructor would build)")
+                return CacheRef(base, attr)
             if attr == "__class__":
                 return ClassRef(base.cls)
             cls = getattr(self.module(), base.cls)
@@ -480,6 +500,9 @@ class Exec:
                         self.note("f-string contents of exception messages")
                 return ExcVal(f.id)
             if f.id in st.locals:
+                tgt = st.locals[f.id]
+                if isinstance(tgt, Rec) and self.has_attr(tgt.cls, "__call__"):
+                    return self.call_key(self.key_of(tgt.cls, "__call__"), [tgt] + [self.ev(a, st) for a in e.args], st, line)
                 raise Outside("call of a local callable")
             if isinstance(getattr(self.module(), f.id, None), type):
                 return self.construct(f.id, [self.ev(a, st) for a in e.args], st, line)
@@ -640,6 +663,8 @@ class Exec:
                 self.note(f"write to cache attribute .{target.attr} (memoisation of a pure function; dropped)")
             else:
                 raise Outside("attribute assignment outside a constructor")
+        elif isinstance(target, ast.Subscript) and isinstance(self.ev(target.value, st), CacheRef):
+            self.note("store into a memo table (dropped; the cache invariant is an assumption)")
         else:
             raise Outside(f"assignment target {type(target).__name__}")
 
@@ -718,7 +743,18 @@ class Exec:
                 return [(m, "next", None)]
         return ft + ff
 
-    def merge(self, c, a, b, base, n0):
+    def absorbs(self, c, va, vb):
+        """BV unrolling: if the solver shows  not c => va == vb  the iteration is a no-op once the guard is false, and the
+        merged value is simply va (sound: under c it is va, under not c it equals vb)"""
+        try:
+            s = z3.Solver()
+            s.set("timeout", 2000)
+            s.add(z3.Not(c), self.bvv(va) != self.bvv(vb))
+            return s.check() == z3.unsat
+        except z3.Z3Exception:
+            return False
+
+    def merge(self, c, a, b, base, n0, absorb=False):
         if len(a.calls) != len(base.calls) or len(b.calls) != len(base.calls) or any(a.ghosts.get(k) is not b.ghosts.get(k) for k in set(a.ghosts) | set(b.ghosts)):
             return None
         if a.locals.keys() != b.locals.keys():
@@ -735,6 +771,8 @@ class Exec:
                         out.locals[k] = va
                     else:
                         return None
+                elif absorb and is_intlike(va) and is_intlike(vb) and self.absorbs(c, va, vb):
+                    out.locals[k] = va
                 else:
                     out.locals[k] = self.ite(c, va, vb)
         except (Outside, z3.Z3Exception):
@@ -814,17 +852,17 @@ class Exec:
                     if isinstance(hv, Rec) != isinstance(nv, Rec) or (isinstance(hv, Rec) and (hv.cls != nv.cls or any(isinstance(hv.f[q], Rec) and hv.f[q] is not nv.f.get(q) for q in hv.f))):
                         raise Outside(f"loop {k}: variable '{nme}' changes its class or field across an iteration")
                 post = self.env(x, L, a)
+                calls = {}
+                for nm_, w in x.calls[ncalls:]:
+                    calls.setdefault(nm_, []).append(NS(**w))
                 if L.update is not None:
-                    calls = {}
-                    for nm_, w in x.calls[ncalls:]:
-                        calls.setdefault(nm_, []).append(NS(**w))
                     newg = L.update(eh, post, calls)
                     for g, t in newg.items():
                         x.ghosts[g] = t
                     post = self.env(x, L, a)
                 hyps = []
                 for i, h in enumerate(L.hints):
-                    f = h(eh, post)
+                    f = h(eh, post, calls)
                     v = self.emit(f"loop{k}.hint{i}", x, f, line=s.lineno, extra_hyps=hyps)
                     v.kind = "lemma"
                     hyps.append(f)
@@ -886,7 +924,7 @@ class Exec:
                 post_iter[0](flows[0][0])
             skip = cur.copy()
             skip.pc.append(z3.Not(c))
-            m = self.merge(c, flows[0][0], skip, cur, n0)
+            m = self.merge(c, flows[0][0], skip, cur, n0, absorb=True)
             if m is None:
                 raise Outside(f"BV loop {k}: body state cannot be merged")
             cur = m
@@ -1039,12 +1077,15 @@ class Exec:
             raise Outside(f"return value of kind {res.cls if isinstance(res, Rec) else type(res).__name__} where the contract declares {t}")
         e = NS(old=a, r=NS(**{k: v for k, v in x.locals.items()}), g=NS(**x.ghosts), res=res)
         wf = C.witness.get(ordn, C.witness.get("*"))
+        calls = {}
+        for nm_, w_ in x.calls:
+            calls.setdefault(nm_, []).append(NS(**w_))
+        e.calls = calls
         if wf is not None:
-            calls = {}
-            for nm_, w_ in x.calls:
-                calls.setdefault(nm_, []).append(NS(**w_))
-            e.calls = calls
-            w = wf(e)
+            try:
+                w = wf(e)
+            except (AttributeError, KeyError, IndexError) as err:
+                raise RoleMissing(f"witness of return #{ordn} refers to a local or callee that no longer exists: {err}")
         else:
             w = {g: x.ghosts[g] for g in C.post_ghosts if g in x.ghosts}
         missing = [g for g in C.post_ghosts if g not in w]
@@ -1053,7 +1094,10 @@ class Exec:
         wn = NS(**w)
         hyps = []
         for i, h in enumerate(C.hints.get(ordn, ())):
-            f = h(e, res, wn)
+            try:
+                f = h(e, res, wn)
+            except (AttributeError, KeyError, IndexError) as err:
+                raise RoleMissing(f"hint {i} of return #{ordn} refers to a local or callee that no longer exists: {err}")
             v = self.emit(f"ret{ordn}.hint{i}", x, f, line=line, extra_hyps=hyps)
             v.kind = "lemma"
             hyps.append(f)
